@@ -61,18 +61,40 @@ func ruleClearPendingTable(c *Ctx) {
 	info := fi.Pkg.TypesInfo
 	recv, op := recvName(fi), paramName(fi, 0)
 	aFlag := "b:TreatRIBACKAsCompletedInFIBACKMode"
-	aPending := "b:ok"
+	// the lookup `<entry>, <found> := <…>.pendq.Ops[op.Id]` names the two locals the table is about
+	pendVar, okVar := "v", "ok"
+	nLookup := 0
+	inspectNoFuncLit(fi.Decl.Body, func(m ast.Node) bool {
+		as, isAs := m.(*ast.AssignStmt)
+		if !isAs || len(as.Lhs) != 2 || len(as.Rhs) != 1 {
+			return true
+		}
+		ie, isIdx := ast.Unparen(as.Rhs[0]).(*ast.IndexExpr)
+		if !isIdx {
+			return true
+		}
+		if strings.HasSuffix(canonTerm(fi, ie.X), "pendq.Ops") && canonTerm(fi, ie.Index) == op+".Id" {
+			if a, b := identOf(as.Lhs[0]), identOf(as.Lhs[1]); a != nil && b != nil {
+				pendVar, okVar = a.Name, b.Name
+				nLookup++
+			}
+		}
+		return true
+	})
+	if nLookup != 1 {
+		c.vanished("TABLE-CLEAR-PENDING", fi.Name, "pending lookup", fmt.Sprintf("%d lookups of the result's id in the pending queue (want exactly 1)", nLookup))
+		return
+	}
+	aPending := "b:" + okVar
 	st := func(n string) string { return eqAtom("const:AFTResult_"+n, op+".Status") }
 	aFIBMode := eqAtom(recv+".state.SessParams.AckType", "const:SessionParameters_RIB_AND_FIB_ACK")
-	aVNil := eqAtom("nil", "v")
+	aVNil := eqAtom("nil", pendVar)
 	ev := func(n ast.Node) []Event {
 		var out []Event
 		inspectNoFuncLit(n, func(m ast.Node) bool {
 			if call, ok := m.(*ast.CallExpr); ok {
 				if id, ok := ast.Unparen(call.Fun).(*ast.Ident); ok && id.Name == "delete" && len(call.Args) == 2 {
-					_, p := selectorPath(info, call.Args[0])
-					_, k := selectorPath(info, call.Args[1])
-					if strings.HasSuffix(strings.Join(p, "."), "pendq.Ops") && strings.Join(k, ".") == "Id" {
+					if strings.HasSuffix(canonTerm(fi, call.Args[0]), "pendq.Ops") && canonTerm(fi, call.Args[1]) == op+".Id" {
 						out = append(out, Event{Kind: "dequeue", Node: call})
 					} else {
 						out = append(out, Event{Kind: "delete-other", Node: call})
@@ -117,10 +139,10 @@ func ruleClearPendingTable(c *Ctx) {
 		if f["Details"] == nil {
 			continue
 		}
-		if o, p := selectorPath(info, f["OperationID"]); o == nil || o.Name() != op || strings.Join(p, ".") != "Id" {
+		if f["OperationID"] == nil || canonTerm(fi, f["OperationID"]) != op+".Id" {
 			good, why = false, "OperationID is not the result's id"
 		}
-		if o, p := selectorPath(info, f["ProgrammingResult"]); o == nil || o.Name() != op || strings.Join(p, ".") != "Status" {
+		if f["ProgrammingResult"] == nil || canonTerm(fi, f["ProgrammingResult"]) != op+".Status" {
 			good, why = false, "ProgrammingResult is not the received status"
 		}
 	}
@@ -536,7 +558,7 @@ func ruleConnectLifecycle(c *Ctx) {
 	}
 	// sequence of wg.Add / go statements at the top level of Connect
 	var seq []string
-	var gos []*ast.FuncLit
+	var gos []*bodyRef
 	for _, st := range fi.Decl.Body.List {
 		switch x := st.(type) {
 		case *ast.ExprStmt:
@@ -549,8 +571,8 @@ func ruleConnectLifecycle(c *Ctx) {
 			}
 		case *ast.GoStmt:
 			seq = append(seq, "go")
-			if fl, ok := x.Call.Fun.(*ast.FuncLit); ok {
-				gos = append(gos, fl)
+			if br := resolveCallBody(fi, x.Call); br != nil {
+				gos = append(gos, br)
 			}
 		case *ast.IfStmt, *ast.ForStmt, *ast.SwitchStmt:
 			// a go statement nested in control flow would escape this census
@@ -568,13 +590,14 @@ func ruleConnectLifecycle(c *Ctx) {
 	c.Sites += len(seq)
 	c.check(strings.Join(seq, ",") == "add,go,add,go", rule, fi.Name, "each goroutine is counted before it starts", c.P.pos(fi.Decl.Pos()), "wg.Add(1); go …; wg.Add(1); go …", "goroutine start / wait-group accounting sequence is ["+strings.Join(seq, ",")+"], want [add,go,add,go]")
 	if len(gos) != 2 {
-		c.vanished(rule, fi.Name, "goroutine bodies", fmt.Sprintf("found %d goroutine literals, want 2", len(gos)))
+		c.vanished(rule, fi.Name, "goroutine bodies", fmt.Sprintf("found %d goroutine bodies, want 2", len(gos)))
 		return
 	}
-	for i, fl := range gos {
+	for i, gb := range gos {
+		fl := gb.Body
 		name := []string{"receiver", "sender"}[i]
 		hasDone, hasInform, hasExit := false, false, false
-		for _, st := range fl.Body.List {
+		for _, st := range fl.List {
 			ds, ok := st.(*ast.DeferStmt)
 			if !ok {
 				continue
@@ -582,61 +605,57 @@ func ruleConnectLifecycle(c *Ctx) {
 			if isWG(ds.Call, "Done") {
 				hasDone = true
 			}
-			if id, ok := ast.Unparen(ds.Call.Fun).(*ast.Ident); ok {
-				if v, ok := info.ObjectOf(id).(*types.Var); ok {
-					if dfl, ok := ast.Unparen(soleDefinition(info, fi.Decl, v)).(*ast.FuncLit); ok {
-						// informDone: a select with default sending on doneCh
-						nonBlocking := false
-						ast.Inspect(dfl.Body, func(n ast.Node) bool {
-							if sel, ok := n.(*ast.SelectStmt); ok {
-								hasDefault, sends := false, false
-								for _, cc := range sel.Body.List {
-									cl := cc.(*ast.CommClause)
-									if cl.Comm == nil {
-										hasDefault = true
-									} else if ss, ok := cl.Comm.(*ast.SendStmt); ok && strings.HasSuffix(types.ExprString(ss.Chan), ".doneCh") {
-										sends = true
-									}
-								}
-								if hasDefault && sends {
-									nonBlocking = true
-								}
-							}
-							return true
-						})
-						// no bare send on doneCh
-						ast.Inspect(dfl.Body, func(n ast.Node) bool {
-							if _, ok := n.(*ast.SelectStmt); ok {
-								return false
-							}
-							if ss, ok := n.(*ast.SendStmt); ok && strings.HasSuffix(types.ExprString(ss.Chan), ".doneCh") {
-								nonBlocking = false
-							}
-							return true
-						})
-						if nonBlocking {
-							hasInform = true
+			dfl := resolveFuncBody(gb.FI, ds.Call.Fun)
+			if dfl == nil {
+				continue
+			}
+			// informDone: a select with default sending on doneCh, and no bare send on doneCh
+			nonBlocking := false
+			ast.Inspect(dfl.Body, func(n ast.Node) bool {
+				if sel, ok := n.(*ast.SelectStmt); ok {
+					hasDefault, sends := false, false
+					for _, cc := range sel.Body.List {
+						cl := cc.(*ast.CommClause)
+						if cl.Comm == nil {
+							hasDefault = true
+						} else if ss, ok := cl.Comm.(*ast.SendStmt); ok && strings.HasSuffix(types.ExprString(ss.Chan), ".doneCh") {
+							sends = true
+						}
+					}
+					if hasDefault && sends {
+						nonBlocking = true
+					}
+				}
+				return true
+			})
+			ast.Inspect(dfl.Body, func(n ast.Node) bool {
+				if _, ok := n.(*ast.SelectStmt); ok {
+					return false
+				}
+				if ss, ok := n.(*ast.SendStmt); ok && strings.HasSuffix(types.ExprString(ss.Chan), ".doneCh") {
+					nonBlocking = false
+				}
+				return true
+			})
+			if nonBlocking {
+				hasInform = true
+			}
+			// exit announcement: send on and close of sendExitCh
+			sends, closes := false, false
+			for _, s2 := range dfl.Body.List {
+				if ss, ok := s2.(*ast.SendStmt); ok && strings.HasSuffix(types.ExprString(ss.Chan), ".sendExitCh") {
+					sends = true
+				}
+				if es, ok := s2.(*ast.ExprStmt); ok {
+					if call, ok := es.X.(*ast.CallExpr); ok {
+						if id, ok := call.Fun.(*ast.Ident); ok && id.Name == "close" && len(call.Args) == 1 && strings.HasSuffix(types.ExprString(call.Args[0]), ".sendExitCh") {
+							closes = true
 						}
 					}
 				}
 			}
-			if dfl, ok := ds.Call.Fun.(*ast.FuncLit); ok {
-				sends, closes := false, false
-				for _, s2 := range dfl.Body.List {
-					if ss, ok := s2.(*ast.SendStmt); ok && strings.HasSuffix(types.ExprString(ss.Chan), ".sendExitCh") {
-						sends = true
-					}
-					if es, ok := s2.(*ast.ExprStmt); ok {
-						if call, ok := es.X.(*ast.CallExpr); ok {
-							if id, ok := call.Fun.(*ast.Ident); ok && id.Name == "close" && strings.HasSuffix(types.ExprString(call.Args[0]), ".sendExitCh") {
-								closes = true
-							}
-						}
-					}
-				}
-				if sends && closes {
-					hasExit = true
-				}
+			if sends && closes {
+				hasExit = true
 			}
 		}
 		c.Sites++
@@ -714,18 +733,47 @@ func ruleErrorsRecorded(c *Ctx) {
 	if fi == nil {
 		return
 	}
-	info := fi.Pkg.TypesInfo
 	n := 0
+	// handler candidates: closures declared in Connect, and repo functions called from its goroutines
+	var cands []*bodyRef
+	seenBody := map[*ast.BlockStmt]bool{}
+	addCand := func(br *bodyRef) {
+		if br != nil && !seenBody[br.Body] {
+			seenBody[br.Body] = true
+			cands = append(cands, br)
+		}
+	}
 	ast.Inspect(fi.Decl.Body, func(m ast.Node) bool {
-		as, ok := m.(*ast.AssignStmt)
-		if !ok || len(as.Lhs) != 1 || len(as.Rhs) != 1 {
-			return true
+		if as, ok := m.(*ast.AssignStmt); ok && len(as.Lhs) == 1 && len(as.Rhs) == 1 {
+			if _, ok := ast.Unparen(as.Rhs[0]).(*ast.FuncLit); ok {
+				addCand(resolveFuncBody(fi, as.Rhs[0]))
+			}
 		}
-		fl, ok := ast.Unparen(as.Rhs[0]).(*ast.FuncLit)
-		if !ok || fl.Type.Results == nil || len(fl.Type.Results.List) != 1 {
-			return true
+		return true
+	})
+	for _, gb := range goBodies(fi) {
+		for _, call := range callsIn(gb.Body) {
+			if _, isLit := ast.Unparen(call.Fun).(*ast.FuncLit); isLit {
+				continue
+			}
+			if br := resolveFuncBody(gb.FI, call.Fun); br != nil && br.Lit == nil && br.FI.Pkg == fi.Pkg {
+				addCand(br)
+			}
 		}
-		// handlers: closures returning bool that call Send or handleModifyResponse / take an error parameter
+	}
+	for _, br := range cands {
+		fl := br
+		info := br.FI.Pkg.TypesInfo
+		var results *ast.FieldList
+		if br.Lit != nil {
+			results = br.Lit.Type.Results
+		} else {
+			results = br.FI.Decl.Type.Results
+		}
+		if results == nil || len(results.List) != 1 {
+			continue
+		}
+		// handlers: functions returning bool that call Send or handleModifyResponse
 		kind := ""
 		for _, call := range callsIn(fl.Body) {
 			if se, ok := ast.Unparen(call.Fun).(*ast.SelectorExpr); ok {
@@ -738,7 +786,7 @@ func ruleErrorsRecorded(c *Ctx) {
 			}
 		}
 		if kind == "" {
-			return true
+			continue
 		}
 		n++
 		record := map[string]string{"send": "addSendErr", "recv": "addReadErr"}[kind]
@@ -758,12 +806,12 @@ func ruleErrorsRecorded(c *Ctx) {
 			}
 			return out
 		}
-		pe := &pathEnum{info: info, ev: ev, cap: pathCap, fd: fi.Decl}
+		pe := &pathEnum{info: info, ev: ev, cap: pathCap, fd: br.FI.Decl}
 		paths, _ := pe.run(fl.Body.List)
 		c.Sites += len(paths)
 		bad := ""
 		exits := 0
-		params := paramObjsLit(info, fl)
+		params := br.Params
 		for _, p := range paths {
 			v, isB := firstResultBool(info, p)
 			if !isB || !v {
@@ -783,16 +831,16 @@ func ruleErrorsRecorded(c *Ctx) {
 				continue
 			}
 			// exits without recording: only the orderly ends (EOF on receive, channel closed on send)
+			// (decided by entailment: the path must know err == io.EOF / the bool parameter to be false)
 			orderly := false
-			for _, cs := range p.Conds {
-				if cs.Expr == nil {
+			for _, prm := range params {
+				if prm == nil {
 					continue
 				}
-				s := types.ExprString(cs.Expr)
-				if cs.Taken && strings.Contains(s, "io.EOF") && strings.Contains(s, "==") {
+				if types.Identical(prm.Type(), types.Universe.Lookup("error").Type()) && p.Entails(&FLit{eqAtom(prm.Name(), "io.EOF"), 2, 2}) {
 					orderly = true
 				}
-				if len(params) == 2 && cs.Taken && s == "!"+params[1].Name() {
+				if b, ok := prm.Type().Underlying().(*types.Basic); ok && b.Kind() == types.Bool && p.Entails(&FLit{"b:" + prm.Name(), 2, 1}) {
 					orderly = true // !readOK: the request channel was closed by disconnect()
 				}
 			}
@@ -800,9 +848,8 @@ func ruleErrorsRecorded(c *Ctx) {
 				bad = "the " + kind + " loop can exit on an error without recording it (" + record + "): AwaitConverged would report convergence or wait for ever: " + p.describe(c.P)
 			}
 		}
-		c.check(bad == "" && exits >= 2, rule, fi.Name, kind+" handler records the error before ending its loop", c.P.pos(fl.Pos()), fmt.Sprintf("%d exit paths: recorded, or an orderly end", exits), bad)
-		return true
-	})
+		c.check(bad == "" && exits >= 2, rule, fi.Name, kind+" handler records the error before ending its loop", c.P.pos(fl.Body.Pos()), fmt.Sprintf("%d exit paths: recorded, or an orderly end", exits), bad)
+	}
 	c.floor(rule, "stream handlers in Connect", n, 2)
 }
 
